@@ -326,6 +326,10 @@ func checkC08(c *checkCtx) {
 			}
 			if bEnd != nil && sameOutcome(got.Val, got.Err, bEnd.Val, bEnd.Err) {
 				c.cov("c08.result_is_completed_result")
+			} else if hedgeProducedBefore(sc, v, got, c1seq) {
+				// with simultaneous attempt results the hedge may accept another one than in the base schedule:
+				// a result an attempt had produced before the cancellation took effect is a completed result
+				c.cov("c08.result_is_earlier_hedge_attempt_result")
 			} else if gateRejection(got.Err) {
 				// refused by a bulkhead, rate limiter or breaker: that is how this execution completed, whatever the
 				// cancellation did (contention with the other clients differs from the base schedule)
@@ -400,9 +404,10 @@ func errClass(err error) string {
 // code that ran past the cancellation instant had finished.
 func lateSite(c *checkCtx, v *ExecView, tc time.Duration) string {
 	tq := tc
-	for _, e := range v.Events {
-		if (e.Kind == EvFnEnd || e.Kind == EvFallbackFnEnd) && e.T > tq {
-			tq = e.T
+	// functions in flight at the cancellation instant may legitimately run on for a while
+	for i, s := range v.FnStarts {
+		if i < len(v.FnEnds) && s.T <= tc && v.FnEnds[i].T > tq {
+			tq = v.FnEnds[i].T
 		}
 	}
 	var deepest *Node
@@ -465,4 +470,20 @@ func validC08(sc *Scenario) bool {
 
 func gateRejection(err error) bool {
 	return err != nil && (errors.Is(err, bulkhead.ErrFull) || errors.Is(err, ratelimiter.ErrExceeded) || errors.Is(err, circuitbreaker.ErrOpen))
+}
+
+// hedgeProducedBefore: got equals the outcome of a hedge attempt that had finished before sequence number seq.
+func hedgeProducedBefore(sc *Scenario, v *ExecView, got *Event, seq int) bool {
+	for _, n := range v.Nodes {
+		p := v.policyAt(sc, n.Pos)
+		if p == nil || p.Kind != KHedge {
+			continue
+		}
+		for _, ch := range n.Children {
+			if ch.Exit != nil && ch.Exit.Seq < seq && sameOutcome(got.Val, got.Err, ch.Exit.Val, ch.Exit.Err) {
+				return true
+			}
+		}
+	}
+	return false
 }
